@@ -37,6 +37,7 @@ def rand_cfg(ctx, which, pts):
     return cfg
 
 
+@core.safe_case
 def one(ctx, which, pts, cfg, family):
     res = rdpfam.run_case(ctx, which, pts, cfg, family)
     n = len(pts)
@@ -76,11 +77,11 @@ def run(ctx):
         for which in WHICH[:4]:
             if rng.random() < (0.5 if quick else 1.0):
                 one(ctx, which, pts, rand_cfg(ctx, which, pts), 'exhaustive-small')
-    N = 1200 if quick else 20000
+    N = 2000 if quick else 30000
     nmax = 40 if quick else 160
     for i in range(N):
         pts, fam = rdpfam.random_points(ctx, nmax)
-        which = rng.choice(WHICH)
+        which = rng.choice(WHICH + ['rdp', 'rdp'])
         one(ctx, which, pts, rand_cfg(ctx, which, pts), fam)
     if not quick:
         for name, a in gen.traces().items():
